@@ -275,9 +275,24 @@ func (p *Program) OwnFuncs() []*ssa.Function {
 		}
 		out = append(out, fn)
 	}
+	// order by (file, offset): token.Pos values depend on the order in which the loader happened to
+	// register files and differ between runs
+	type key struct {
+		file string
+		off  int
+	}
+	ks := map[*ssa.Function]key{}
+	for _, fn := range out {
+		ps := p.Fset.Position(fn.Pos())
+		ks[fn] = key{ps.Filename, ps.Offset}
+	}
 	sort.Slice(out, func(i, j int) bool {
-		if out[i].Pos() != out[j].Pos() {
-			return out[i].Pos() < out[j].Pos()
+		a, b := ks[out[i]], ks[out[j]]
+		if a.file != b.file {
+			return a.file < b.file
+		}
+		if a.off != b.off {
+			return a.off < b.off
 		}
 		return out[i].String() < out[j].String()
 	})
